@@ -301,6 +301,9 @@ pub fn write_generic_diff_header_header_line(
     // However in the case of color_only mode,
     // we won't skip because we can't change raw_line structure.
     if config.file_style.is_omitted && !config.color_only {
+        // The header that would have shown the mode change is not written: the mode
+        // information belongs to this file and must not outlive it.
+        mode_info.clear();
         return Ok(());
     }
     let (mut draw_fn, pad, decoration_ansi_term_style) =
